@@ -127,8 +127,12 @@ func (d *Document) UpdateTOC() error {
 	}
 
 	// 处理SDT类型的TOC
-	// 使用默认TOC配置
+	// 使用生成该目录时请求的标题和最大级别；未知时（例如不是本库生成的目录）使用默认配置
 	config := DefaultTOCConfig()
+	if tocSDT.tocMaxLevel > 0 {
+		config.Title = tocSDT.tocTitle
+		config.MaxLevel = tocSDT.tocMaxLevel
+	}
 
 	// 重新收集标题信息
 	entries := d.collectHeadings(config.MaxLevel)
@@ -647,6 +651,8 @@ func (d *Document) createWordFieldTOC(config *TOCConfig, entries []TOCEntry) []i
 		Content: &SDTContent{
 			Elements: []interface{}{},
 		},
+		tocTitle:    config.Title,
+		tocMaxLevel: config.MaxLevel,
 	}
 
 	// 添加目录标题段落
